@@ -85,6 +85,9 @@ def eval_fn(F, fn, args, depth=4, steps=400):
                 return int(v)
             if isinstance(v, int):
                 return v
+            if isinstance(v, str) and v.startswith("0x") and len(v) == 34 and str(k.get("ty", "")).endswith("::BitRange"):
+                bts = bytes.fromhex(v[2:])
+                return Agg(k["ty"], "BitRange", 0, [int.from_bytes(bts[:8], "little"), int.from_bytes(bts[8:], "little")], ["start", "end"])
             return UNKNOWN
         return place_val(op[1])
 
